@@ -179,11 +179,11 @@ func vChunkMaskTable(mode int, k int) uint64 {
 	case 1:
 		t = [6]uint32{0x0f0f0f0f, 0xa5c3961e, 0xffff0000, 0x0000ffff, 0x5a3c69e1, 0xf0f0f0f0}
 	case 2:
-		t = [6]uint32{0x0f0f3f3f, 0xb5d3972e, 0xfffff000, 0x000fffff, 0x5e3c6de5, 0xf3f0f3f0}
+		t = [6]uint32{0x0f0f3f3f, 0xb5d3972f, 0xfffff000, 0x000fffff, 0x5e3c6de7, 0xf3f0f3f0}
 	case 3:
-		t = [6]uint32{0x3f3f3f3f, 0xf5d3b76e, 0xffffff00, 0x00ffffff, 0x7e3e6df7, 0xf3f3f3f3}
+		t = [6]uint32{0x3f3f3f3f, 0xf5dbb76f, 0xffffff00, 0x00ffffff, 0x7e3e6dff, 0xf3f3f3f3}
 	default:
-		t = [6]uint32{0x7f7f7f7f, 0xfdd7bf7e, 0xfffffff0, 0x0fffffff, 0x7f7e7ff7, 0xf7f7f7f7}
+		t = [6]uint32{0x7f7f7f7f, 0xfdf7bf7f, 0xfffffff0, 0x0fffffff, 0x7f7f7ff7, 0xf7f7f7f7}
 	}
 	return mathext.RepeatUint32(t[k%6])
 }
